@@ -83,6 +83,19 @@ func Programs18(tier string) []Program {
 		add(in, []string{cb(0, in.next)}, []string{cb(1, in.next+1)}, []string{"Publish:1"}, []string{"Publish:1"})
 		add(in, []string{cb(0, in.next)}, []string{cb(1, in.next)}, []string{"Publish:1"}, []string{"Cancel:1"})
 	}
+	// the typed twin of the wrapper (OpenTBlocking, typed_blocking.go) is a second copy of the same
+	// code: the same programs run against it (quick: those of at most three threads that start at or
+	// beyond NextOffset or call Close; thorough: all)
+	n := len(ps)
+	for i := 0; i < n; i++ {
+		p := ps[i]
+		if tier != "thorough" && len(p.Threads) > 3 {
+			continue
+		}
+		p.Typed = true
+		p.Name = fmt.Sprintf("t%03d", i)
+		ps = append(ps, p)
+	}
 	return ps
 }
 
